@@ -10,6 +10,16 @@ use std::simd::prelude::*;
 
 const SIMD_LANES: usize = 4;
 
+/// Integer value of a cell for the numeric aggregates: typed i64 columns (and parsed string
+/// columns) answer through `get_i64_at`; typed u64 columns only have the unsigned view.
+#[inline]
+fn integer_at(col: &ColumnValues, row_idx: usize) -> Option<i64> {
+    col.get_i64_at(row_idx).or_else(|| {
+        col.get_u64_at(row_idx)
+            .and_then(|u| i64::try_from(u).ok())
+    })
+}
+
 /// Finalized output of an aggregator
 #[derive(Debug, Clone, PartialEq)]
 pub enum AggOutput {
@@ -368,7 +378,7 @@ impl Sum {
 
     pub fn update(&mut self, row_idx: usize, columns: &HashMap<String, ColumnValues>) {
         if let Some(col) = columns.get(&self.field) {
-            if let Some(v) = col.get_i64_at(row_idx) {
+            if let Some(v) = integer_at(col, row_idx) {
                 self.sum += v;
             }
         }
@@ -461,7 +471,7 @@ impl Min {
 
     pub fn update(&mut self, row_idx: usize, columns: &HashMap<String, ColumnValues>) {
         if let Some(col) = columns.get(&self.field) {
-            if let Some(v) = col.get_i64_at(row_idx) {
+            if let Some(v) = integer_at(col, row_idx) {
                 match self.min_num {
                     Some(cur) if v < cur => self.min_num = Some(v),
                     None => self.min_num = Some(v),
@@ -544,7 +554,7 @@ impl Max {
 
     pub fn update(&mut self, row_idx: usize, columns: &HashMap<String, ColumnValues>) {
         if let Some(col) = columns.get(&self.field) {
-            if let Some(v) = col.get_i64_at(row_idx) {
+            if let Some(v) = integer_at(col, row_idx) {
                 match self.max_num {
                     Some(cur) if v > cur => self.max_num = Some(v),
                     None => self.max_num = Some(v),
@@ -627,7 +637,7 @@ impl Avg {
 
     pub fn update(&mut self, row_idx: usize, columns: &HashMap<String, ColumnValues>) {
         if let Some(col) = columns.get(&self.field) {
-            if let Some(v) = col.get_i64_at(row_idx) {
+            if let Some(v) = integer_at(col, row_idx) {
                 self.sum += v;
                 self.count += 1;
             }
